@@ -9,7 +9,7 @@ func opSQL(sp *Spec, at *int64, host, q string) {
 
 // family maintenance (C09)
 func genMaintenance(r *rng, index int) *Spec {
-	sp := baseSpec(r, shapeOpt{minHA: 3, maxHA: 4, cascade: 0.2})
+	sp := baseSpec(r, shapeOpt{minHA: 3, maxHA: 4, cascade: 0.35})
 	c := &sp.Cfg
 	ha := sp.haNames()
 	master := ha[0]
@@ -118,7 +118,11 @@ func genMaintenance(r *rng, index int) *Spec {
 			}
 		case 6:
 			if !twoMasters && moved == "" {
-				nm := ha[1+r.intn(len(ha)-1)]
+				// any registered replica, a cascade one as well
+				nm := all[1+r.intn(len(all)-1)]
+				if len(all) > len(ha) && r.chance(0.5) {
+					nm = all[len(ha)+r.intn(len(all)-len(ha))]
+				}
 				at := T
 				opSQL(sp, &at, nm, "STOP SLAVE FOR CHANNEL ''")
 				opSQL(sp, &at, nm, "RESET SLAVE ALL FOR CHANNEL ''")
